@@ -383,18 +383,18 @@ inproc_accept_clients(inproc_ep *srv)
 			    ((rv = nni_pipe_alloc_listener(
 			          (void **) &spipe, srv->listener)) != 0)) {
 
+				// (the pipes do not point at the pair yet, so they
+				// will not release it: both references are ours)
 				if (cpipe != NULL) {
 					nni_pipe_close(cpipe->pipe);
 					nni_pipe_rele(cpipe->pipe);
-				} else {
-					nni_refcnt_rele(&pair->ref);
 				}
+				nni_refcnt_rele(&pair->ref);
 				if (spipe != NULL) {
 					nni_pipe_close(spipe->pipe);
 					nni_pipe_rele(spipe->pipe);
-				} else {
-					nni_refcnt_rele(&pair->ref);
 				}
+				nni_refcnt_rele(&pair->ref);
 				inproc_conn_finish(caio, rv, cli, NULL);
 				inproc_conn_finish(saio, rv, srv, NULL);
 				continue;
